@@ -707,6 +707,14 @@ def run(tier: str, seed: int, replay=None) -> int:
         case = replay["case"]
         if isinstance(case, dict) and case.get("scenario") == "state_reuse":
             return _run_state_reuse(rep, findings, only=True)
+        if isinstance(case, dict) and case.get("scenario") == "altbase_tmp":
+            obs = altbase_tmp_observe()
+            rep.count("altbase_tmp", True)
+            rep.extra["altbase_tmp"] = obs
+            if obs["wrong"]:
+                rep.violation({"kind": "counterexample", "case": case, "impl": obs,
+                               "python": "from harness import c04; print(c04.altbase_tmp_scenario())"})
+            return rep.finish()
         if isinstance(case, dict) and case.get("scenario") == "todao_state":
             descrs, origin = [], []
         else:
